@@ -25,6 +25,7 @@ func runC18(c *Ctx) {
 	c.rule("M2", "Execute returns the run's result (converted by ConvertCommandError/ConvertProcessError only); the conversion yields nil only for a nil error or ESRCH", 3)
 	c.rule("M3", "an io.Writer that splits each chunk on a line separator and forwards the pieces keeps the trailing fragment in a field it both reads and writes", 1)
 	c.rule("M4", "logStreamer: each non-empty piece goes to exactly one of Log/LogError by the stream flag, no early exit, n=len(p); Stdout/Stderr get the out/err adapters over the command's loggers", 4)
+	c.rule("M6", "stop(): IsOn() is re-validated under the object's mutex before the command is stopped and an end message logged (exactly one end message per run across Execute and the monitor's Stop)", 1)
 	c.rule("M5", "Output*: the string returned is the content of the string logger combined into the subprocess's loggers, read after Execute", 1)
 
 	exec := c.fn(spPkg, "(*Subprocess).Execute")
@@ -179,6 +180,50 @@ func runC18(c *Ctx) {
 	c.c18Tokenisers()
 	c.c18Routing()
 	c.c18Output()
+	c.c18StopRecheck()
+}
+
+// M6: Execute logs the end message itself; the monitor's Stop runs concurrently and blocks on the object's mutex while
+// Execute is in progress. stop() must therefore re-validate IsOn() after it obtained the mutex, before it stops the
+// command and logs an end message: otherwise a cancelled Execute is followed by a second (success) end message.
+func (c *Ctx) c18StopRecheck() {
+	f := c.fn(spPkg, "(*Subprocess).stop")
+	if f == nil {
+		return
+	}
+	c.FuncsSeen[fname(f)] = true
+	ls := computeLockset(f)
+	var ends []*ssa.Call
+	allInstrs(f, func(in ssa.Instruction) {
+		if cl, ok := in.(*ssa.Call); ok && strings.HasSuffix(calleeFull(&cl.Call), "subprocessMessaging).LogEnd") {
+			ends = append(ends, cl)
+		}
+	})
+	key := fname(f) + "/recheck-under-lock"
+	if len(ends) == 0 {
+		c.ok("M6", key, c.pos(f.Pos()), "stop() logs no end message")
+		return
+	}
+	good := true
+	for _, e := range ends {
+		okOne := false
+		allInstrs(f, func(in ssa.Instruction) {
+			cl, ok := in.(*ssa.Call)
+			if !ok || !strings.HasSuffix(calleeFull(&cl.Call), "Subprocess).IsOn") {
+				return
+			}
+			if ls.at(cl, "mu") == lockNone {
+				return
+			}
+			if onBoolSide(e, true, func(v ssa.Value) bool { return v == ssa.Value(cl) }) {
+				okOne = true
+			}
+		})
+		if !okOne {
+			good = false
+		}
+	}
+	c.check(good, "M6", key, c.ipos(ends[0]), "IsOn() re-checked under the mutex before the end message", "stop() logs an end message without having re-checked IsOn() after it obtained the mutex: when it was waiting for a running Execute, which already logged its own end message, a second (success) message follows a failed or cancelled run")
 }
 
 // M3
